@@ -436,7 +436,20 @@ theorem dmode_roundtrip (c : DMode) (hd : [c.close, c.open, c.request, c.openReq
     | exact absurd h.symm h6
 
 theorem dmode_values (c : DMode) : dmodeConst c 0 = c.close ∧ dmodeConst c 1 = c.open ∧ dmodeConst c 2 = c.request ∧
-    dmodeConst c 3 = c.openRequest ∧ dmodeConst c 7 = c.close := by
+    dmodeConst c 3 = c.openRequest := by
   simp [dmodeConst]
+
+/-- a number that is not one of the four modes is printed as itself and reads back equal (before the repair c6ac2ad
+every such number was printed as the `closed` constant) -/
+theorem dmode_other (c : DMode) (i : Int) (h : i < 0 ∨ 3 < i) :
+    dmodeConst c i = ESV.showInt i ∧ ESV.readInt (dmodeConst c i) = some i := by
+  have e : dmodeConst c i = ESV.showInt i := by
+    unfold dmodeConst
+    have h0 : i ≠ 0 := by omega
+    have h1 : i ≠ 1 := by omega
+    have h2 : i ≠ 2 := by omega
+    have h3 : i ≠ 3 := by omega
+    simp [h0, h1, h2, h3]
+  exact ⟨e, by rw [e]; exact ESV.readInt_showInt i⟩
 
 end ESV.C04
